@@ -196,6 +196,8 @@ var c19Scenarios = []func(plan, sched *simrt.Source, trace bool) *RunOut{
 	w1(ProfC18),
 	w1(ProfC05),
 	w1(ProfC15),
+	RunBuilderConc,
+	func(plan, sched *simrt.Source, trace bool) *RunOut { return RunW2Scripted(ProfC16, plan, sched, trace) },
 }
 
 func runC19(plan, sched *simrt.Source, trace bool) *RunOut {
@@ -254,12 +256,12 @@ func init() {
 	register(&PropDef{ID: "C13", Run: mixed(ProfC13), Clauses: set(clSpec, clContain)})
 	register(&PropDef{ID: "C14", Run: mixed(ProfC14), Clauses: set(clSpec, clContain)})
 	register(&PropDef{ID: "C15", Run: mixed(ProfC15), Clauses: set(clLocals, clContain)})
-	register(&PropDef{ID: "C17", Clauses: set(clCapacity, clContain, clShared), Run: w2(&W2Opt{Prof: ProfC17, Methods: allEngineMethods, MaxClients: 6, MaxReqs: 4,
+	register(&PropDef{ID: "C17", Clauses: set(clCapacity, clContain, clShared), Run: w2(&W2Opt{Prof: ProfC17, Methods: cat(allEngineMethods, []int{MPoolEM, MPoolEM, MPoolEMMulti}), MaxClients: 6, MaxReqs: 4,
 		FinalProbe: true, WaiterRound: true, NilTagPct: 40, Admins: 1, MaxMgmt: 3, MgmtKinds: []int{OpClear, OpClear, OpFull, OpIncr}, InvalidPct: 10, Restore: true,
 		Oracle: OracleC17})})
-	register(&PropDef{ID: "C06", Clauses: set(clIsolation, clContain), Run: w2(&W2Opt{Prof: ProfC06, Methods: allEngineMethods, MaxClients: 5, MaxReqs: 5,
+	register(&PropDef{ID: "C06", Clauses: set(clIsolation, clContain), Run: w2(&W2Opt{Prof: ProfC06, Methods: cat(allEngineMethods, []int{MPoolEM, MPoolEMMulti, MPoolSelEM}), MaxClients: 5, MaxReqs: 5,
 		OptPct: 50, Oracle: OracleC06})})
-	register(&PropDef{ID: "C07", Clauses: set(clVersions, clContain), Run: w2(&W2Opt{Prof: ProfC07, Methods: cat(allEngineMethods, []int{MPoolEMMulti, MPoolSelEM}), MaxClients: 4, MaxReqs: 4,
+	register(&PropDef{ID: "C07", Clauses: set(clVersions, clContain), Run: w2(&W2Opt{Prof: ProfC07, Methods: cat(allEngineMethods, []int{MPoolEMMulti, MPoolSelEM, MPoolEM, MPoolEM}), MaxClients: 4, MaxReqs: 4,
 		Admins: 2, MaxMgmt: 3, MgmtKinds: []int{OpFull, OpIncr, OpIncr, OpRemove}, InvalidPct: 15, UpdFromRule: true, Oracle: OracleC07})})
 	register(&PropDef{ID: "C16", Clauses: set(clPoolMgmt, clSpec, clContain), Run: func(plan, sched *simrt.Source, trace bool) *RunOut {
 		return RunW2Scripted(ProfC16, plan, sched, trace)
